@@ -7,6 +7,8 @@
    instead of numpy.square makes `reflexivity` fail here (seeded change C02_2). *)
 From Coq Require Import ZArith Bool List String PrimFloat.
 From VF Require Import Num NumF GenNorm GenHedge GenTerm.
+Import ListNotations.
+Local Open Scope list_scope.
 
 Theorem C02b_membership_mode_independent : forall (tbl : oracle) (s : shape float) (x : float),
   @shape_membership float (NumF true tbl) s x = @shape_membership float (NumF false tbl) s x.
